@@ -750,6 +750,23 @@ func (lg *ledger) kindFact(cond ssa.Value, truth bool, subject ssa.Value, isType
 			}
 		}
 	}
+	// a predicate of the module on the subject: isList(v), hasLength(v.Kind()) ... - the kinds for which it
+	// can return that truth value (from the paths of the predicate)
+	if call, isCall := cond.(*ssa.Call); isCall && !isType {
+		if g := call.Call.StaticCallee(); g != nil && inModule(g) && len(g.Blocks) > 0 && g.Signature.Results().Len() == 1 && isBasicKind(g.Signature.Results().At(0).Type(), types.Bool) && len(g.Params) == len(call.Call.Args) {
+			for i, a := range call.Call.Args {
+				if lg.key(a) != lg.key(subject) || !namedIs(a.Type(), "reflect", "Value") {
+					continue
+				}
+				if whenTrue, whenFalse, ok := lg.w.kindPredicate(g, i); ok {
+					if truth {
+						return whenTrue, true
+					}
+					return whenFalse, true
+				}
+			}
+		}
+	}
 	bo, ok := cond.(*ssa.BinOp)
 	if !ok || (bo.Op != token.EQL && bo.Op != token.NEQ) {
 		return 0, false
@@ -2535,8 +2552,13 @@ func cellValue(ld *ssa.UnOp) ssa.Value {
 		// inside the closure: the captured variable, if the enclosing function writes it exactly once,
 		// before the closure is made
 		mc, al := closureBinding(fv)
-		if mc == nil || al == nil || !singleStoreCell(al) {
+		if mc == nil || al == nil {
 			return nil
+		}
+		if !singleStoreCell(al) {
+			// written several times: the write that reaches the place where the closure is made, provided
+			// no write can follow it once the closure exists
+			return reachingStore(al, mc, true)
 		}
 		for _, ref := range *al.Referrers() {
 			st, ok := ref.(*ssa.Store)
@@ -2560,8 +2582,11 @@ func cellValue(ld *ssa.UnOp) ssa.Value {
 		return nil
 	}
 	al, ok := ld.X.(*ssa.Alloc)
-	if !ok || ld.Op != token.MUL || !singleStoreCell(al) {
+	if !ok || ld.Op != token.MUL {
 		return nil
+	}
+	if !singleStoreCell(al) {
+		return reachingStore(al, ld, false)
 	}
 	for _, ref := range *al.Referrers() {
 		st, ok := ref.(*ssa.Store)
@@ -2583,6 +2608,104 @@ func cellValue(ld *ssa.UnOp) ssa.Value {
 		}
 	}
 	return nil
+}
+
+// reachingStore: the cell al (a local that lives in memory because a closure captures it) is written
+// several times by its function and by nothing else; returns the value of the one write that reaches
+// the instruction at, or nil when that is not a single write. With noLater (at is the place where a
+// closure is made, the question is what the closure will read) no write may be reachable from at.
+func reachingStore(al *ssa.Alloc, at ssa.Instruction, noLater bool) ssa.Value {
+	if al.Referrers() == nil || at == nil || at.Block() == nil {
+		return nil
+	}
+	var stores []*ssa.Store
+	for _, ref := range *al.Referrers() {
+		switch x := ref.(type) {
+		case *ssa.Store:
+			if x.Addr != ssa.Value(al) {
+				return nil // the address itself is stored somewhere
+			}
+			stores = append(stores, x)
+		case *ssa.UnOp, *ssa.DebugRef:
+		case *ssa.MakeClosure:
+			fn, ok := x.Fn.(*ssa.Function)
+			if !ok {
+				return nil
+			}
+			for i, b := range x.Bindings {
+				if b != ssa.Value(al) || i >= len(fn.FreeVars) {
+					continue
+				}
+				for _, r2 := range *fn.FreeVars[i].Referrers() {
+					if st, ok := r2.(*ssa.Store); ok && st.Addr == ssa.Value(fn.FreeVars[i]) {
+						return nil // the closure writes the variable
+					}
+					if _, ok := r2.(*ssa.MakeClosure); ok {
+						return nil
+					}
+				}
+			}
+		default:
+			return nil
+		}
+	}
+	pos := func(ins ssa.Instruction) int {
+		for i, x := range ins.Block().Instrs {
+			if x == ins {
+				return i
+			}
+		}
+		return -1
+	}
+	before := func(a, b ssa.Instruction) bool { // a is executed before b on every path to b
+		if a.Block() == b.Block() {
+			return pos(a) < pos(b)
+		}
+		return a.Block().Dominates(b.Block())
+	}
+	inLoop := func(b *ssa.BasicBlock) bool { return blockReaches(b, b, true) }
+	// the latest write before at
+	var best *ssa.Store
+	for _, st := range stores {
+		if !before(st, at) {
+			continue
+		}
+		if best == nil || before(best, st) {
+			best = st
+		}
+	}
+	if best == nil {
+		return nil
+	}
+	for _, st := range stores {
+		if st == best {
+			continue
+		}
+		if before(st, best) && !inLoop(best.Block()) {
+			continue // overwritten by best
+		}
+		// any other write must be unable to run between best and at (or, with noLater, after at)
+		if st.Block() == at.Block() {
+			if pos(st) > pos(at) && !inLoop(at.Block()) && !noLater {
+				continue
+			}
+			return nil
+		}
+		if blockReaches(st.Block(), at.Block(), true) || (before(st, best) && inLoop(best.Block())) {
+			return nil
+		}
+		if noLater && blockReaches(at.Block(), st.Block(), true) {
+			return nil
+		}
+	}
+	if noLater && inLoop(at.Block()) {
+		for _, st := range stores {
+			if st != best && st.Block() == at.Block() {
+				return nil
+			}
+		}
+	}
+	return best.Val
 }
 
 // closureBinding: the one place where the closure owning fv is made, and the cell bound to fv there.
@@ -2773,4 +2896,71 @@ func (lg *ledger) proveAnyUnderAlternatives(b *ssa.BasicBlock, try func(ctx *pro
 func isSliceType(t types.Type) bool {
 	_, ok := t.Underlying().(*types.Slice)
 	return ok
+}
+
+// kindPredicate: for a boolean function g of the module and its reflect.Value parameter number i, the
+// kinds (bit set) the argument can have when g returns true and when it returns false: on every path
+// of g the kind tests it passes narrow the set; a path that returns the value of a last kind test
+// contributes to both. ok = false when nothing is learnt.
+func (w *World) kindPredicate(g *ssa.Function, i int) (whenTrue, whenFalse uint64, ok bool) {
+	type res struct {
+		t, f uint64
+		ok   bool
+	}
+	key := fmt.Sprintf("kindPredicate|%p|%d", g, i)
+	if v, hit := w.predSubst.Load(key); hit {
+		r := v.(res)
+		return r.t, r.f, r.ok
+	}
+	out := res{}
+	defer func() { w.predSubst.Store(key, out) }()
+	if funcHasLoop(g) || i >= len(g.Params) {
+		return 0, 0, false
+	}
+	paths, walked := walkPaths(g, nil, nil)
+	if !walked || len(paths) == 0 || len(paths) > 256 {
+		return 0, 0, false
+	}
+	lg := newLedger(w, g)
+	subject := ssa.Value(g.Params[i])
+	all := ^uint64(0)
+	for _, p := range paths {
+		if p.end != "return" || len(p.results) != 1 {
+			return 0, 0, false
+		}
+		set := all
+		for _, d := range p.decisions {
+			if ks, known := lg.kindFact(d.cond, d.truth, subject, false); known {
+				set &= ks
+			}
+		}
+		r := p.resolve(p.results[0])
+		if c, isConst := p.constOf(r); isConst && c.Kind() == constant.Bool {
+			if constant.BoolVal(c) {
+				out.t |= set
+			} else {
+				out.f |= set
+			}
+			continue
+		}
+		neg := false
+		for {
+			u, isNot := r.(*ssa.UnOp)
+			if !isNot || u.Op != token.NOT {
+				break
+			}
+			r, neg = p.resolve(u.X), !neg
+		}
+		st, sf := set, set
+		if ks, known := lg.kindFact(r, !neg, subject, false); known {
+			st &= ks
+		}
+		if ks, known := lg.kindFact(r, neg, subject, false); known {
+			sf &= ks
+		}
+		out.t |= st
+		out.f |= sf
+	}
+	out.ok = out.t != all || out.f != all
+	return out.t, out.f, out.ok
 }
